@@ -54,6 +54,10 @@ type Pipe struct {
 	Wire     []byte // every accepted byte (when Record)
 	WriteEnd []int  // Wire offset after each accepted write (when Record)
 	DepStep  []int  // scheduler step of each accepted write (when Record)
+	WriteTask []int // task id of each accepted write (when Record)
+	// GateWrites=false turns writes into plain deposits without gates (race
+	// engine for code that holds a lock across transport writes).
+	NoWriteGates bool
 
 	RSeg, WSeg int
 	// NoYield makes writes plain deposits without gates (used by stubs that run
@@ -139,6 +143,13 @@ func (p *Pipe) task() *kernel.Task {
 	return p.S.Cur()
 }
 
+func (p *Pipe) wtask() *kernel.Task {
+	if p.NoWriteGates {
+		return nil
+	}
+	return p.task()
+}
+
 // Read implements io.Reader. It never returns (0, nil) for len(b) > 0.
 func (p *Pipe) Read(b []byte) (int, error) {
 	if len(b) == 0 {
@@ -214,6 +225,11 @@ func (p *Pipe) deposit(b []byte) {
 		p.WriteEnd = append(p.WriteEnd, len(p.Wire))
 		if p.S != nil {
 			p.DepStep = append(p.DepStep, p.S.Now())
+			id := -1
+			if t := p.S.Cur(); t != nil {
+				id = t.ID
+			}
+			p.WriteTask = append(p.WriteTask, id)
 		}
 	}
 	start := p.Total
@@ -233,21 +249,27 @@ func (p *Pipe) deposit(b []byte) {
 	p.avail = int32(len(p.buf))
 }
 
-// Write implements io.Writer with the plan's write faults.
+// Write implements io.Writer with the plan's write faults. All bookkeeping is
+// done under the pipe's lock, as a kernel socket would.
 func (p *Pipe) Write(b []byte) (int, error) {
-	t := p.task()
+	t := p.wtask()
 	if t != nil {
 		t.Yield("pre-write:" + p.Name)
 	}
+	p.mu.Lock()
 	idx := p.St.Writes
 	p.St.Writes++
-	if p.wrClosed != 0 {
+	closed, gone := p.wrClosed != 0, p.eof != 0 && p.CutAt < 0
+	werr := p.WErrAt >= 0 && (idx == p.WErrAt || (p.WErrStick && idx > p.WErrAt))
+	short := idx == p.ShortAt
+	p.mu.Unlock()
+	if closed {
 		return 0, ErrClosed
 	}
-	if p.eof != 0 && p.CutAt < 0 {
+	if gone {
 		return 0, ErrPeerGone
 	}
-	if p.WErrAt >= 0 && (idx == p.WErrAt || (p.WErrStick && idx > p.WErrAt)) {
+	if werr {
 		n := 0
 		if idx == p.WErrAt {
 			n = p.WErrN
@@ -258,13 +280,15 @@ func (p *Pipe) Write(b []byte) (int, error) {
 		if n > 0 {
 			p.deposit(b[:n])
 		}
+		p.mu.Lock()
 		p.St.WriteErrs++
 		if !p.WFaultFired {
 			p.WFaultFired, p.WFaultTotal, p.WFaultCall = true, p.Total, idx
 		}
+		p.mu.Unlock()
 		return n, p.WErr
 	}
-	if idx == p.ShortAt {
+	if short {
 		n := p.ShortN
 		if n >= len(b) {
 			n = len(b) - 1
@@ -275,27 +299,34 @@ func (p *Pipe) Write(b []byte) (int, error) {
 		if n > 0 {
 			p.deposit(b[:n])
 		}
+		p.mu.Lock()
 		p.St.Shorts++
 		if !p.WFaultFired {
 			p.WFaultFired, p.WFaultTotal, p.WFaultCall = true, p.Total, idx
 		}
+		p.mu.Unlock()
 		return n, nil
 	}
 	// A write may reach the peer in several segments, with the peer able to run
 	// in between.
 	rest := b
 	for len(rest) > 0 {
-		if p.wrClosed != 0 {
+		p.mu.Lock()
+		closed, gone = p.wrClosed != 0, p.eof != 0 && p.CutAt < 0
+		p.mu.Unlock()
+		if closed {
 			return len(b) - len(rest), ErrClosed
 		}
-		if p.eof != 0 && p.CutAt < 0 {
+		if gone {
 			return len(b) - len(rest), ErrPeerGone
 		}
 		n := p.segLen(p.WSeg, len(rest))
 		p.deposit(rest[:n])
 		rest = rest[n:]
 		if len(rest) > 0 {
+			p.mu.Lock()
 			p.St.SplitWrites++
+			p.mu.Unlock()
 			if t != nil {
 				t.Yield("mid-write:" + p.Name)
 			}
@@ -369,7 +400,7 @@ func (c *Conn) Write(b []byte) (int, error) { return c.Out.Write(b) }
 
 func (c *Conn) Close() error {
 	if c.YieldOnClose {
-		if t := c.Out.task(); t != nil {
+		if t := c.Out.wtask(); t != nil {
 			t.Yield("close:" + c.name)
 		}
 	}
@@ -377,7 +408,9 @@ func (c *Conn) Close() error {
 		return ErrClosed
 	}
 	c.closed = true
+	c.Out.mu.Lock()
 	c.Out.wrClosed = 1
+	c.Out.mu.Unlock()
 	c.Out.CloseWrite()
 	c.In.CloseRead()
 	if c.OnClose != nil {
@@ -393,13 +426,20 @@ func (a addr) String() string  { return string(a) }
 
 func (c *Conn) LocalAddr() net.Addr                { return addr(c.name) }
 func (c *Conn) RemoteAddr() net.Addr               { return addr("peer-of-" + c.name) }
-func (c *Conn) SetDeadline(t time.Time) error      { c.WDeadline = t; return nil }
+func (c *Conn) SetDeadline(t time.Time) error {
+	c.Out.mu.Lock()
+	c.WDeadline = t
+	c.Out.mu.Unlock()
+	return nil
+}
 func (c *Conn) SetReadDeadline(t time.Time) error  { return nil }
 func (c *Conn) SetWriteDeadline(t time.Time) error {
+	c.Out.mu.Lock()
 	c.Deadlines++
 	c.WDeadline = t
+	c.Out.mu.Unlock()
 	if c.YieldOnDeadline {
-		if tk := c.Out.task(); tk != nil {
+		if tk := c.Out.wtask(); tk != nil {
 			tk.Yield("deadline:" + c.name)
 		}
 	}
@@ -418,3 +458,13 @@ func (p *Pipe) StepReached(off int64) int {
 	}
 	return -1
 }
+
+// TotalNow reads Total under the pipe's lock (for use across tasks).
+func (p *Pipe) TotalNow() int64 {
+	p.mu.Lock()
+	defer p.mu.Unlock()
+	return p.Total
+}
+
+// Inject deposits bytes into the stream without gates or faults (stub peers).
+func (p *Pipe) Inject(b []byte) { p.deposit(b) }
